@@ -18,7 +18,8 @@ MCScenarios == LET js == TLCEval(JsonDeserialize(ScnFile)) IN {js[i] : i \in DOM
 CRet == [ev |-> "ret", kind |-> ObsKind, errid |-> outcome.errid, phase |-> 1,
          missing |-> SetToSeq({LabelOfV(v) : v \in outcome.missing}), einputs |-> SetToSeq(Folded(scn.inputs)),
          econvs |-> [i \in DOMAIN scn.convs |-> i], msgok |-> TRUE, asok |-> ObsKind = "unsat",
-         len |-> 0, outs |-> <<>>, lack |-> ObsKind \in {"unsat", "othererr"}, detail |-> ""]
+         len |-> 0, outs |-> <<>>, lack |-> ObsKind \in {"unsat", "othererr"}, detail |-> "",
+         valnil |-> ObsKind # "ok", valok |-> TRUE, valtok |-> IF IsConvert /\ outcome.kind = "ok" THEN log[Len(log)].args[1] ELSE 0]
 CRets == IF Done /\ ~Redef THEN <<CRet>> ELSE <<>>
 CRedef == IF Done /\ Redef
           THEN [ev |-> "redef", ok |-> outcome.kind = "redef",
@@ -40,6 +41,7 @@ M_C05 == CI!C05
 M_C06 == outcome.kind \notin {"panic_final", "panic_dup", "overflow"}
 M_C08 == CI!C08
 M_C13 == CI!C13
+M_C10 == CI!C10
 
 \* emission of every distinct terminal observation (evaluated once per distinct state)
 EmitObs == Done => PrintT(<<"OBS", ToJson(Observation)>>)
